@@ -71,6 +71,9 @@ type C11Case struct {
 	Preset  []HV     `json:"preset,omitempty"`
 	Script  Script   `json:"script"`
 	Overlap *Overlap `json:"overlap,omitempty"`
+	// WrapEarly: the handler is wrapped while the middleware is still a zero value; the configuration
+	// arrives afterwards through Reconfigure (a server that wires its routes first and configures CORS later).
+	WrapEarly bool `json:"wrap_early,omitempty"`
 }
 
 func (c C11Case) Brief() any {
@@ -105,6 +108,7 @@ func c11Gen(t *rapid.T) C11Case {
 		cfg := genValidCfg(t)
 		c.Cfg = &cfg
 		c.Debug = chance(t, "debug", 40)
+		c.WrapEarly = chance(t, "wrapearly", 30)
 		p = poolsOf(cfg)
 	}
 	c.Req.Method = pick(t, "method", []string{"OPTIONS", "OPTIONS", "OPTIONS", "GET", "POST", "PUT", "options", "HEAD", "DELETE"})
@@ -186,7 +190,18 @@ func headerMapsEqual(a, b map[string][]string) bool {
 func c11Check(c C11Case, rec *Recorder) *Disc {
 	var m *cors.Middleware
 	configured := c.Cfg != nil
-	if configured {
+	var early *Server
+	if configured && c.WrapEarly {
+		m = new(cors.Middleware)
+		early = NewServer(m.Wrap) // wrapped while passthrough
+		cfg := c.Cfg.Cors()
+		if err := m.Reconfigure(&cfg); err != nil {
+			rec.Class("rejected-config")
+			return nil
+		}
+		m.SetDebug(c.Debug)
+		rec.Class("wrapped-before-configured")
+	} else if configured {
 		var err error
 		m, err = mkMW(*c.Cfg, c.Debug)
 		if err != nil {
@@ -203,6 +218,9 @@ func c11Check(c C11Case, rec *Recorder) *Disc {
 		m = new(cors.Middleware)
 	}
 	srv := NewServer(m.Wrap)
+	if early != nil {
+		srv = early
+	}
 	run := c.Script.run
 	var inner *Resp
 	if c.Overlap != nil {
@@ -333,7 +351,7 @@ func c11Check(c C11Case, rec *Recorder) *Disc {
 
 func TestC11(t *testing.T) {
 	Prop[C11Case]{ID: "C11", Gen: c11Gen, Check: c11Check,
-		Rule: "generator: configured (any valid configuration, both debug modes) or passthrough (zero value / Reconfigure(nil) after debug) middleware x method x Origin and ACRM each in {absent, present with zero values, empty string, one value, two values} x ACRH/ACRPN " +
+		Rule: "generator: configured (any valid configuration, both debug modes; in 30% of these cases the handler is wrapped while the middleware is still a zero value and the configuration arrives afterwards through Reconfigure) or passthrough (zero value / Reconfigure(nil) after debug) middleware x method x Origin and ACRM each in {absent, present with zero values, empty string, one value, two values} x ACRH/ACRPN " +
 			"x inner-handler script (header Set/Add/Del on names incl. Vary and Access-Control-*, status none/2xx-5xx, body) x pre-set response headers from an outer wrapper x (25%) a second request served start to finish by the same wrapped handler while the first handler is between its header operations and its WriteHeader (two requests in flight, order owned by the harness; usually the same operations with other values). Oracle: predicate 'configured and OPTIONS and >=1 Origin value and >=1 ACRM value' decides: " +
 			"handler never invoked + empty body + pre-set headers kept, or invoked exactly once with the very same request (same pointer, and header map / method / target / protocol / host as sent) and writer, header map at entry = pre-set (+Vary suffix, ACAO/ACAC/ACEH), final response = entry + the handler's own operations; passthrough: entry == pre-set exactly. " +
 			"non-trivial = boundary of the predicate (OPTIONS with zero-valued or empty Origin/ACRM; non-OPTIONS carrying both) or a handler touching Vary/CORS names; distinct by full case.",
